@@ -227,3 +227,19 @@ CLAIMED['C14'] = ('model_checking',
     'Trusted: TLC, Split.tla, the concretiser, html.parser. Documents are rendered in an empty directory (a stale .paux of another run '
     'with the same labels changes hrefs; that is C03/C09 territory).',
     TECH)
+CLAIMED['C12'] = ('model_checking',
+    'Escape.tla: texts are sequences of symbols (markup metacharacters, a blank, a character above 127, and word symbols that make entity-, tag- '
+    'and placeholder-like strings expressible in a few symbols).  Machine layer = the stages of the text path (textDefault hook, template '
+    'emission into element content or a double-quoted attribute, image-placeholder post-processing, escape-high-chars); rule layer = Dec, the '
+    'HTML tokenizer restricted to the alphabet (tag/comment open, attribute end, named references with/without semicolon incl. the attribute '
+    'exception, numeric references).  TLC checks ShowsAsText and HighCharsOnlyChangeBytes for every text of <= 4 (thorough 5) symbols over 16 '
+    'symbols x context x high; the as-built constants (AttrEscaped, PlaceholderGuarded = FALSE) reproduce F9/F10 as TLC counterexamples.  '
+    'spec->code: every text of <= 2/3 symbols over 22 symbols plus simulated longer ones and hand-picked shapes are placed in 14 text-bearing '
+    'positions, rendered by the real pipeline (HTML5 default/minimal, XHTML; escape-high-chars on/off) and parsed with html.parser: between '
+    'the markers exactly the characters of the text, no tag/comment/declaration, attribute values intact, pure ASCII when escaping is on.  '
+    'code->spec: the raw bytes emitted between the markers are tokenised and TLC (EscapeTrace.tla) decodes each distinct emission with Dec.',
+    'DESIGN.md#c12',
+    'Trusted: TLC, Escape.tla (Dec is my transcription of the HTML tokenizer rules for this alphabet; html.parser is the independent second '
+    'reader), the tokeniser, expected characters = symbols after TeX ligatures.  The routing of text through ~300 template files is not '
+    'modelled: positions are covered by rendering, so for templates the assurance is exhaustive small-scope testing of the real renderer.',
+    TECH)
